@@ -30,6 +30,7 @@ const (
 	Truncated = "truncated" // 200, body cut in the middle of the JSON document, connection closed
 	Exec500   = "exec500"   // 500, JSON errorType=execution
 	Unavail   = "json503un" // 503, JSON errorType=unavailable (a real Prometheus whose TSDB is not ready)
+	CutJSON   = "cutjson"   // 200, HTTP-complete, but the JSON document ends at a token boundary inside "data"
 )
 
 // Action is what the server does with one request.
@@ -242,6 +243,23 @@ func (s *Server) handle(w http.ResponseWriter, r *http.Request) {
 		jsonErr(500, "execution", "query processing failed on the server")
 	case Unavail:
 		jsonErr(503, "unavailable", "TSDB not ready")
+	case CutJSON:
+		body := DefaultBody
+		if s.Body != nil {
+			body = s.Body
+		}
+		b := body(snapshot, form)
+		cut := b[:len(b)/2]
+		if i := strings.Index(b, `"result":[`); i >= 0 {
+			cut = b[:i+len(`"result":[`)]
+		} else if i := strings.Index(b, `"data":{`); i >= 0 {
+			cut = b[:i+len(`"data":{`)]
+		}
+		finish("fault:" + act.Fault)
+		w.Header().Set("Content-Type", "application/json")
+		w.Header().Set("Content-Length", fmt.Sprint(len(cut)))
+		w.WriteHeader(200)
+		_, _ = w.Write([]byte(cut))
 	case Truncated:
 		body := DefaultBody
 		if s.Body != nil {
